@@ -289,12 +289,28 @@ func (fv *FuncVC) evalIdent(env *SpecEnv, name string) Val {
 		for _, l := range env.con.Lets {
 			if l.Name == name {
 				if l.Old {
+					// the entry state never changes: evaluate once and name the result, so that every use is the same term
+					ck := fmt.Sprintf("%p:%s", env.con, l.Name)
+					if cv, ok := fv.letOldCache[ck]; ok && fv.binderDepth == 0 {
+						return cv
+					}
 					ne := env.clone()
 					ne.cur = env.old
 					ne.inOld = true
 					v := fv.evalSpec(ne, l.Expr)
 					if v.St == nil {
 						v.St = env.old
+					}
+					if fv.binderDepth == 0 && len(v.C) == 1 && len(v.C[0]) > 40 {
+						if cs := fv.m.Flatten(v.T); len(cs) == 1 {
+							n := fv.ctx.Fresh("letold."+l.Name, cs[0].Sort)
+							fv.ctx.axioms = append(fv.ctx.axioms, Eq(n, v.C[0]))
+							v.C = []string{n}
+							if fv.letOldCache == nil {
+								fv.letOldCache = map[string]Val{}
+							}
+							fv.letOldCache[ck] = v
+						}
 					}
 					return v
 				}
@@ -465,6 +481,16 @@ func (fv *FuncVC) resolveSourceName(env *SpecEnv, name string) (Val, bool) {
 
 func (fv *FuncVC) debugRefLookup(env *SpecEnv, name string, phi *ssa.Phi) (Val, bool) {
 	fr := env.fr
+	// inside old(..) a parameter denotes its entry value (its cell, if it has one, does not exist yet in the entry state)
+	if env.inOld {
+		for _, p := range fr.fn.Params {
+			if p.Name() == name {
+				if v, computed := fr.vals[p]; computed {
+					return v, true
+				}
+			}
+		}
+	}
 	// a local that lives in a cell (captured by a closure / address taken): its value is the content of the
 	// cell in the state at hand, whatever value a debug reference last recorded for it
 	for _, b := range fr.fn.Blocks {
@@ -1027,6 +1053,11 @@ func (fv *FuncVC) evalCall(env *SpecEnv, x *SCall) Val {
 			// fresh(p): p was allocated during the call
 			v := fv.evalSpec(env, x.Args[0])
 			return boolVal(fmt.Sprintf("(and (>= %s %s) (< %s %s))", v.C[0], env.old.cnt, v.C[0], env.cur.cnt))
+		case "refid":
+			// refid(p): the allocation number of the object a pointer (or the pointer held by an interface value) denotes;
+			// objects allocated later have larger numbers
+			v := fv.evalSpec(env, x.Args[0])
+			return intVal(v.C[len(v.C)-1])
 		case "instant":
 			v := fv.evalSpec(env, x.Args[0])
 			return intVal(v.C[0])
@@ -1039,6 +1070,18 @@ func (fv *FuncVC) evalCall(env *SpecEnv, x *SCall) Val {
 		case "toreal":
 			v := fv.evalSpec(env, x.Args[0])
 			return Val{T: types.Typ[types.Float64], C: []string{toReal(v.C[0])}}
+		case "same":
+			// same(T::f, ...): the heap arrays are exactly their entry versions (no object, old or new, has the field written)
+			var es []string
+			for _, a := range x.Args {
+				for _, hk := range fv.readKeys(specExprText(a), env.pkg) {
+					cur, old := fv.m.heapGet(env.cur, hk), fv.m.heapGet(env.old, hk)
+					if cur != old {
+						es = append(es, Eq(cur, old))
+					}
+				}
+			}
+			return boolVal(And(es...))
 		case "unchanged":
 			// unchanged(T::f, ...) heap arrays equal to their entry versions
 			// every object that existed at entry has its entry content (objects allocated since are not constrained)
